@@ -1841,7 +1841,7 @@ func ruleNonNegLen(c *Ctx, rule string, names ...string) {
 		c.Funcs[funcName(fn)] = true
 		src := fn.Params[1].Name()
 		lenAtom := src + ".Slice().Len()"
-		lenRepl := linAtom(src + ".End()").add(linAtom(src+".Start()"), -1)
+		lenRepl := linAtom(src+".End()").add(linAtom(src+".Start()"), -1)
 		norm := func(l lin) lin { return l.subst(lenAtom, lenRepl) }
 		n := 0
 		for _, b := range fn.Blocks {
